@@ -74,6 +74,28 @@ Proof.
 Qed.
 Print Assumptions delete_permanent_refuted.
 
+(* Tombstones are replayed independently: what a file shows for a key at a time is its stored
+   value unless SOME tombstone (key', lo, hi) of the file has key' = key and lo <= t <= hi —
+   each tombstone hides exactly its own key over its own range, whatever other tombstones
+   precede or follow it (no batching of keys across ranges); and recovery re-reads the tombstone
+   lists as they are: the four recovery steps leave every file, data and tombstones, unchanged. *)
+Theorem tombstones_replay_independent :
+  forall (f : tsmfile) (k : key) (t : Z),
+  lookup_last t (file_values f k) =
+  if existsb (fun tb => key_eqb (fst tb) k && in_rng (fst (snd tb)) (snd (snd tb)) t) (f_tombs f)
+  then None else lookup_last t (kv_get k (f_data f)).
+Proof. exact fpt_tombs. Qed.
+Print Assumptions tombstones_replay_independent.
+
+Theorem recovery_keeps_files_and_tombstones :
+  forall (s : state) (x : step), In x open_steps -> files (sd (step_fn repaired s x)) = files (sd s).
+Proof.
+  intros s x Hx. unfold step_fn. destruct (step_ok s x); [|reflexivity].
+  cbn in Hx. destruct Hx as [<-|[<-|[<-|[<-|[]]]]]; unfold do_step; try reflexivity.
+  destruct (rev (wal (sd s))) as [|sg r]; [reflexivity|]. destruct (is_nil (sg_items sg)); reflexivity.
+Qed.
+Print Assumptions recovery_keeps_files_and_tombstones.
+
 (* Listings.  After every recovery the shard lists a series iff a key of it is left in some
    file's index or in the cache ... *)
 Theorem listing_after_recovery :
